@@ -65,7 +65,8 @@ class C11(Property):
             else:
                 events.append(["pull_past", -rnd.choice([1, 5])])
         memory = rnd.choice([None, None, None, 0, 8, 100, 200])
-        return dict(kind=kind, p=p, payload=payload, events=events, memory=memory, units=rnd.choice(["m", "m", "m", "degC", "", "mm/d"]))
+        return dict(kind=kind, p=p, payload=payload, events=events, memory=memory, units=rnd.choice(["m", "m", "m", "degC", "", "mm/d"]),
+                    sink=rnd.choice(["pull", "pull", "pull", "push"]))
 
     def run(self, spec):
         out = Outcome()
@@ -86,9 +87,54 @@ class C11(Property):
             loc = "spill-c11"
             os.makedirs(loc, exist_ok=True)
             out.count("cases_with_memory_limit")
+        if spec.get("sink") == "push":
+            return self._push_sink(out, spec, info, ada, w, mask, loc)
         o, (inp,) = slots.simple_link(info, info.copy_with(), adapters=[ada], memory=spec.get("memory"), location=loc)
         try:
             return self._drive(out, spec, o, inp, ada, w, mask)
+        finally:
+            ada.finalize()
+            o.finalize()
+
+    def _push_sink(self, out, spec, info, ada, w, mask, loc):
+        """a push-type consumer behind the adapter pulls the notified time inside its notification
+        callback: at a publication time every interpolant returns that publication"""
+        got = []
+
+        def on_notify(caller, time):
+            got.append((time, caller.pull_data(time)))
+
+        o = fm.Output(name="out", info=info)
+        sink = fm.CallbackInput(on_notify, name="sink", info=info.copy_with())
+        slots.wire(o, [ada], [sink], spec.get("memory"), loc)
+        sink.exchange_info()
+        try:
+            n = 0
+            for ev in spec["events"]:
+                if ev[0] != "push":
+                    continue
+                got.clear()
+                try:
+                    o.push_data(ev[2] * w, slots.t(ev[1]))
+                except (fm.FinamNoDataError, fm.FinamTimeError) as e:
+                    out.viol("pull_in_notification_refused", f"{spec['kind']}: pull for the notified time {ev[1]}s inside the notification failed: {type(e).__name__}: {e}", spec=spec)
+                    return out
+                out.count("publications")
+                if len(got) != 1:
+                    out.viol("notification_count", f"{len(got)} notifications for one publication", spec=spec)
+                    return out
+                data = np.ma.getdata(got[0][1].magnitude)[0]
+                keep = ~mask if isinstance(mask, np.ndarray) else np.ones(np.shape(w), bool)
+                exp = ev[2] * w
+                if not np.allclose(data[keep], exp[keep], rtol=1e-12, atol=1e-12):
+                    out.viol("value_at_publication_time", f"{spec['kind']}: pull at the just notified time {ev[1]}s returned {np.asarray(data).ravel()[:2].tolist()} instead of the publication {np.asarray(exp).ravel()[:2].tolist()}", spec=spec)
+                    return out
+                n += 1
+                out.count("pulls_in_notification")
+            if n >= 3:
+                out.key = f"pushsink:{spec['kind']}:{spec['payload']}:{[e[1] for e in spec['events'] if e[0] == 'push'][:6]}"
+            out.count("kind_" + spec["kind"])
+            return out
         finally:
             ada.finalize()
             o.finalize()
@@ -178,7 +224,7 @@ class C11(Property):
 
     def coverage_gaps(self, counters, tier):
         need = ["publications", "pulls_compared", "pulls_on_publication", "pulls_between_publications", "buffer_evictions",
-                "requests_across_several_publications", "out_of_range_refused"] + ["kind_" + k for k in KINDS]
+                "requests_across_several_publications", "out_of_range_refused", "pulls_in_notification"] + ["kind_" + k for k in KINDS]
         return [f"{k} never observed" for k in need if not counters.get(k)]
 
 
